@@ -149,7 +149,11 @@ Fixpoint expr_chk (fuel : nat) (n : node) : option bool :=
           match float_node_string x with
           | Some s =>
               match lex_num s with
-              | Some ts => match js_run is_module ts (MWant false) [] with Some (MHave i, [], []) => Some i | _ => None end
+              | Some ts =>
+                  match js_run is_module ts (MWant false) [] with
+                  | Some (MHave i, [], []) => if text_okb s ts (MHave i) then Some i else None
+                  | _ => None
+                  end
               | None => None
               end
           | None => None
